@@ -269,6 +269,11 @@ def check(model: Model, report: Report) -> None:
     _selrules.check_name(model, report, "R08.1")
     _selrules.check_wildcard(model, report, "R08.1", nondet=False)
     _selrules.check_slice(model, report, "R08.1")
+    # the descendant visitors build child nodes too: new_child(element itself, its own key / index)
+    from . import _segrules
+
+    _segrules.check_visit(model, report, "R08.1")
+    _segrules.check_nondet_children(model, report, "R08.1")
     _filtersel.check_filter_selector(model, report, "R08.1", nondet=False)
     _selrules.check_index(model, report, "R08.6")
     c01.check_new_child(model, report, "R08.2")
